@@ -176,7 +176,7 @@ class Disk:
             raise ValueError("binary mode doesn't take an errors argument")
         if binary and newline is not None:
             raise ValueError("binary mode doesn't take a newline argument")
-        raw = SimRaw(self, path, creating, reading, writing, appending, updating)
+        raw = SimRaw(self, path, creating, reading, writing, appending, updating, given=os.fspath(file))
         try:
             line_buffering = False
             if buffering == 1 and not binary:
@@ -239,7 +239,7 @@ class Disk:
 class SimRaw(io.RawIOBase):
     """Raw file over a real fd; every call is one FS event."""
 
-    def __init__(self, disk: Disk, path: str, creating, reading, writing, appending, updating):
+    def __init__(self, disk: Disk, path: str, creating, reading, writing, appending, updating, given=None):
         super().__init__()
         self._disk = disk
         self._path = path
@@ -249,7 +249,10 @@ class SimRaw(io.RawIOBase):
         self._writable = creating or writing or appending or updating
         self._appending = appending
         self._pos = 0
-        self.name = path
+        # `path` is the textually normalised label used in the trace; the file is opened under the name the caller gave,
+        # because only the OS resolves "link/.." right
+        self._given = given if given is not None else path
+        self.name = self._given
         self.mode = ("rb+" if updating else "rb") if reading else ("wb" if writing else "ab" if appending else "xb")
         if creating:
             flags, kind = os.O_CREAT | os.O_EXCL, "open_x"
@@ -272,7 +275,7 @@ class SimRaw(io.RawIOBase):
                 self._dead = True  # discarded create/truncate after the crash
                 return
             raise SimCrash()
-        existed = os.path.exists(path)
+        existed = os.path.exists(self._given)
         hit, ev = d._event(EV_OPEN, kind, path, 0, 0)
         ev[3] = 1 if existed else 0  # length field of an open event: did the file exist
         if hit is not None:
@@ -280,7 +283,7 @@ class SimRaw(io.RawIOBase):
                 # before (torn < 0.5) or after the open took effect
                 if float(hit.get("torn", 0.0)) >= 0.5 and self._writable:
                     try:
-                        os.close(os.open(path, flags, 0o666))
+                        os.close(os.open(self._given, flags, 0o666))
                     except OSError:
                         pass
                     d._finish(ev, result="crash-after")
@@ -293,7 +296,7 @@ class SimRaw(io.RawIOBase):
                 d._finish(ev, result=errno.errorcode.get(e, str(e)))
                 raise OSError(e, os.strerror(e), path)
         try:
-            self._fd = os.open(path, flags, 0o666)
+            self._fd = os.open(self._given, flags, 0o666)
         except OSError as exc:
             d._finish(ev, result=errno.errorcode.get(exc.errno, "oserror"))
             raise
